@@ -210,6 +210,14 @@ def import_leg(ctx, n):
     that the loader really goes looking for a file; then the interpreter must still work"""
     rng = ctx.rng
     texts = [gen_text.odd_imports(rng) for _ in range(n)]
+    # sequences of SUCCESSFUL declarations that bind a name again, to another value (the same name from two libraries, a rename onto an imported name, a whole
+    # library after parts of it)
+    rebinding = ["(import (scheme base)) (import (rename (scheme write) (display car))) (import (scheme base))",
+                 "(import (only (scheme base) car cdr)) (import (rename (only (scheme base) car cdr) (car cdr) (cdr car))) (import (scheme base))",
+                 "(import (prefix (scheme base) b:)) (import (rename (scheme base) (car b:cdr) (cdr b:car)))", "(import (scheme base) (rename (scheme base) (+ -) (- +)))",
+                 "(import (only (scheme base) + -)) (import (rename (only (scheme base) + -) (+ -) (- +))) (import (rename (only (scheme base) * /) (* +)))",
+                 "(import (scheme write)) (import (rename (scheme base) (list display))) (import (scheme write) (scheme base))"]
+    texts += rebinding * 3
     jobs = [{"id": "imp%d" % i, "interps": [{"stdlib": False, "natives": False}], "steps": [{"src": t}, {"src": "(import (scheme base))"}, {"src": "(+ 40 1)"}], "fuel": 20000}
             for i, t in enumerate(texts)]
     recs = core.run_jobs(jobs, "dev", timeout=900, tag="c07i")
